@@ -1,0 +1,440 @@
+//go:build verif
+
+// Trace recording for the model-based verification harness in /verif: one
+// event per API call and per execution of a user function, emitted at the
+// point where the call's effect is complete. This file is compiled only with
+// the build tag "verif"; the matching no-op definitions for normal builds are
+// in verif_trace_off.go.
+
+package dig
+
+import (
+	"encoding/json"
+	"errors"
+	"fmt"
+	"os"
+	"reflect"
+	"sync"
+)
+
+// VerifParam is one flat parameter of a registered or invoked function.
+type VerifParam struct {
+	T     int    `json:"t"`  // identity of the Go type (process-wide)
+	TS    string `json:"ts"` // its name, for diagnostics
+	Name  string `json:"name,omitempty"`
+	Group string `json:"group,omitempty"`
+	M     string `json:"m"`              // req | opt | grp | soft
+	Path  []int  `json:"path,omitempty"` // parameter objects that hold it, outermost first
+}
+
+// VerifKeyID is a key with the type replaced by its identity.
+type VerifKeyID struct {
+	T     int    `json:"t"`
+	TS    string `json:"ts"`
+	Name  string `json:"name,omitempty"`
+	Group string `json:"group,omitempty"`
+}
+
+// VerifResult is one flat result: the keys it is stored under and its kind.
+type VerifResult struct {
+	Ks []VerifKeyID `json:"ks"`
+	M  string       `json:"m"` // one | grp | flat
+}
+
+// VerifScopeSnap is the projected state of one scope (keys only).
+type VerifScopeSnap struct {
+	S       int          `json:"s"`
+	Vals    []VerifKeyID `json:"vals,omitempty"`
+	DVals   []VerifKeyID `json:"dvals,omitempty"`
+	Grps    []VerifKeyID `json:"grps,omitempty"`  // one entry per member
+	DGrps   []VerifKeyID `json:"dgrps,omitempty"` // one entry per decorated group
+	DGrpLen []int        `json:"dgrplen,omitempty"`
+	Called  []int        `json:"called,omitempty"`  // nodes of this scope whose results are committed
+	DCalled []int        `json:"dcalled,omitempty"` // decorators of this scope that ran
+	DBusy   []int        `json:"dbusy,omitempty"`   // decorators left on the stack
+	Busy    []int        `json:"busy,omitempty"`    // constructors left on the stack
+}
+
+// VerifEvent is one trace event.
+type VerifEvent struct {
+	Seq     int              `json:"seq"`
+	Ev      string           `json:"ev"` // new | scope | provide | decorate | invoke.begin | invoke.end | enter | commit
+	C       int              `json:"c"`  // container
+	S       int              `json:"s"`  // scope the call was made on (provide: the scope given to)
+	Parent  int              `json:"parent,omitempty"`
+	Home    int              `json:"home,omitempty"`
+	Node    int              `json:"node,omitempty"`
+	Kind    string           `json:"kind,omitempty"` // ctor | dec | inv
+	Defer   bool             `json:"defer,omitempty"`
+	Recover bool             `json:"recover,omitempty"`
+	Dry     bool             `json:"dry,omitempty"`
+	Exp     bool             `json:"exp,omitempty"`
+	Ps      []VerifParam     `json:"ps,omitempty"`
+	Rs      []VerifResult    `json:"rs,omitempty"`
+	Err     string           `json:"err,omitempty"` // "" | invalid | dup | cycle | missing | panic | user | reject
+	Missing []VerifKeyID     `json:"missing,omitempty"`
+	Panic   bool             `json:"panicked,omitempty"` // a panic left the call
+	FlatLen []int            `json:"flatlen,omitempty"`  // commit: length of each flattened result
+	Snap    []VerifScopeSnap `json:"snap,omitempty"`
+	Text    string           `json:"text,omitempty"`
+}
+
+// VerifTracer, when set, receives every event. It is installed by init when
+// the environment variable VERIF_TRACE_FILE names a file (one JSON object per
+// line is appended to <file>.<pid>).
+var VerifTracer func(VerifEvent)
+
+var verifT struct {
+	sync.Mutex
+	seq    int
+	types  map[reflect.Type]int
+	scopes map[*Scope]int
+	nodes  map[interface{}]int
+	invs   int
+	out    *os.File
+}
+
+func init() {
+	verifT.types = map[reflect.Type]int{}
+	verifT.scopes = map[*Scope]int{}
+	verifT.nodes = map[interface{}]int{}
+	if f := os.Getenv("VERIF_TRACE_FILE"); f != "" {
+		out, err := os.OpenFile(fmt.Sprintf("%s.%d", f, os.Getpid()), os.O_CREATE|os.O_APPEND|os.O_WRONLY, 0o644)
+		if err == nil {
+			verifT.out = out
+			VerifTracer = func(e VerifEvent) {
+				b, _ := json.Marshal(e)
+				verifT.out.Write(append(b, '\n'))
+			}
+		}
+	}
+}
+
+func verifEmit(e VerifEvent) {
+	verifT.seq++
+	e.Seq = verifT.seq
+	VerifTracer(e)
+}
+
+func verifTypeID(t reflect.Type) int {
+	id, ok := verifT.types[t]
+	if !ok {
+		id = len(verifT.types) + 1
+		verifT.types[t] = id
+	}
+	return id
+}
+
+func verifScopeID(s *Scope) int {
+	id, ok := verifT.scopes[s]
+	if !ok {
+		id = len(verifT.scopes) + 1
+		verifT.scopes[s] = id
+	}
+	return id
+}
+
+func verifNodeID(n interface{}) int {
+	id, ok := verifT.nodes[n]
+	if !ok {
+		id = len(verifT.nodes) + 1
+		verifT.nodes[n] = id
+	}
+	return id
+}
+
+func verifKeyID(k key) VerifKeyID {
+	return VerifKeyID{T: verifTypeID(k.t), TS: fmt.Sprint(k.t), Name: k.name, Group: k.group}
+}
+
+func verifFlatParams(p param, path []int, next *int, out []VerifParam) []VerifParam {
+	switch x := p.(type) {
+	case paramList:
+		for _, q := range x.Params {
+			out = verifFlatParams(q, path, next, out)
+		}
+	case paramSingle:
+		m := "req"
+		if x.Optional {
+			m = "opt"
+		}
+		out = append(out, VerifParam{T: verifTypeID(x.Type), TS: fmt.Sprint(x.Type), Name: x.Name, M: m, Path: append([]int(nil), path...)})
+	case paramGroupedSlice:
+		m := "grp"
+		if x.Soft {
+			m = "soft"
+		}
+		out = append(out, VerifParam{T: verifTypeID(x.Type.Elem()), TS: fmt.Sprint(x.Type.Elem()), Group: x.Group, M: m, Path: append([]int(nil), path...)})
+	case paramObject:
+		*next++
+		sub := append(append([]int(nil), path...), *next)
+		for _, f := range x.Fields {
+			out = verifFlatParams(f.Param, sub, next, out)
+		}
+	}
+	return out
+}
+
+// verifFlatResults flattens a result tree. A decorator returns a value group as
+// the whole slice, keyed by its element type.
+func verifFlatResults(r result, dec bool, out []VerifResult) []VerifResult {
+	switch x := r.(type) {
+	case resultList:
+		for _, q := range x.Results {
+			out = verifFlatResults(q, dec, out)
+		}
+	case resultObject:
+		for _, f := range x.Fields {
+			out = verifFlatResults(f.Result, dec, out)
+		}
+	case resultSingle:
+		vr := VerifResult{M: "one", Ks: []VerifKeyID{verifKeyID(key{t: x.Type, name: x.Name})}}
+		for _, as := range x.As {
+			vr.Ks = append(vr.Ks, verifKeyID(key{t: as, name: x.Name}))
+		}
+		out = append(out, vr)
+	case resultGrouped:
+		t := x.Type
+		if dec && t.Kind() == reflect.Slice {
+			t = t.Elem()
+		}
+		vr := VerifResult{M: "grp", Ks: []VerifKeyID{verifKeyID(key{t: t, group: x.Group})}}
+		if x.Flatten {
+			vr.M = "flat"
+		}
+		for _, as := range x.As {
+			vr.Ks = append(vr.Ks, verifKeyID(key{t: as, group: x.Group}))
+		}
+		out = append(out, vr)
+	}
+	return out
+}
+
+// verifClass maps an error of an API call onto the vocabulary of the trace.
+func verifClass(err error) (string, []VerifKeyID) {
+	if err == nil {
+		return "", nil
+	}
+	var pe PanicError
+	if errors.As(err, &pe) {
+		return "panic", nil
+	}
+	if IsCycleDetected(err) {
+		return "cycle", nil
+	}
+	var mk []VerifKeyID
+	for e := err; e != nil; e = errors.Unwrap(e) {
+		if mt, ok := e.(errMissingTypes); ok {
+			for _, m := range mt {
+				mk = append(mk, verifKeyID(m.Key))
+			}
+		}
+	}
+	if len(mk) > 0 {
+		return "missing", mk
+	}
+	var de Error
+	if !errors.As(RootCause(err), &de) {
+		return "user", nil
+	}
+	return "reject", nil
+}
+
+func verifSnap(root *Scope) []VerifScopeSnap {
+	var out []VerifScopeSnap
+	for _, s := range root.appendSubscopes(nil) {
+		sn := VerifScopeSnap{S: verifScopeID(s)}
+		for k := range s.values {
+			sn.Vals = append(sn.Vals, verifKeyID(k))
+		}
+		for k := range s.decoratedValues {
+			sn.DVals = append(sn.DVals, verifKeyID(k))
+		}
+		for k, vs := range s.groups {
+			for range vs {
+				sn.Grps = append(sn.Grps, verifKeyID(k))
+			}
+		}
+		for k, v := range s.decoratedGroups {
+			ek := k
+			if k.t.Kind() == reflect.Slice {
+				ek.t = k.t.Elem()
+			}
+			sn.DGrps = append(sn.DGrps, verifKeyID(ek))
+			sn.DGrpLen = append(sn.DGrpLen, v.Len())
+		}
+		for _, n := range s.nodes {
+			if n.called {
+				sn.Called = append(sn.Called, verifNodeID(n))
+			}
+			if n.onStack {
+				sn.Busy = append(sn.Busy, verifNodeID(n))
+			}
+		}
+		seen := map[*decoratorNode]bool{}
+		for _, d := range s.decorators {
+			if seen[d] {
+				continue
+			}
+			seen[d] = true
+			switch d.state {
+			case decoratorCalled:
+				sn.DCalled = append(sn.DCalled, verifNodeID(d))
+			case decoratorOnStack:
+				sn.DBusy = append(sn.DBusy, verifNodeID(d))
+			}
+		}
+		out = append(out, sn)
+	}
+	return out
+}
+
+func verifTraceNew(c *Container) {
+	if VerifTracer == nil {
+		return
+	}
+	verifT.Lock()
+	defer verifT.Unlock()
+	s := c.scope
+	verifEmit(VerifEvent{Ev: "new", C: verifScopeID(s), S: verifScopeID(s), Defer: s.deferAcyclicVerification,
+		Recover: s.recoverFromPanics, Dry: reflect.ValueOf(s.invokerFn).Pointer() != reflect.ValueOf(defaultInvoker).Pointer()})
+}
+
+func verifTraceScope(parent, child *Scope) {
+	if VerifTracer == nil {
+		return
+	}
+	verifT.Lock()
+	defer verifT.Unlock()
+	verifEmit(VerifEvent{Ev: "scope", C: verifScopeID(parent.rootScope()), S: verifScopeID(child), Parent: verifScopeID(parent), Text: child.name})
+}
+
+func verifTraceProvide(view, home *Scope, n *constructorNode, err error) {
+	if VerifTracer == nil {
+		return
+	}
+	verifT.Lock()
+	defer verifT.Unlock()
+	next := 0
+	class, _ := verifClass(err)
+	e := VerifEvent{Ev: "provide", C: verifScopeID(home.rootScope()), S: verifScopeID(view), Home: verifScopeID(home),
+		Node: verifNodeID(n), Kind: "ctor", Exp: view != home, Err: class,
+		Ps: verifFlatParams(n.paramList, nil, &next, nil), Rs: verifFlatResults(n.resultList, false, nil)}
+	if err != nil {
+		e.Text = err.Error()
+	}
+	verifEmit(e)
+}
+
+func verifTraceDecorate(s *Scope, n *decoratorNode) {
+	if VerifTracer == nil {
+		return
+	}
+	verifT.Lock()
+	defer verifT.Unlock()
+	next := 0
+	verifEmit(VerifEvent{Ev: "decorate", C: verifScopeID(s.rootScope()), S: verifScopeID(s), Node: verifNodeID(n), Kind: "dec",
+		Ps: verifFlatParams(n.params, nil, &next, nil), Rs: verifFlatResults(n.results, true, nil)})
+}
+
+// verifTraceInvoke emits the begin event of an Invoke and returns the function
+// that, deferred, emits its end event (re-raising a panic that is leaving the
+// call).
+func verifTraceInvoke(s *Scope, pl paramList) func(*error) {
+	if VerifTracer == nil {
+		return func(*error) {}
+	}
+	verifT.Lock()
+	verifT.invs++
+	id := verifT.invs
+	next := 0
+	verifEmit(VerifEvent{Ev: "invoke.begin", C: verifScopeID(s.rootScope()), S: verifScopeID(s), Node: id, Kind: "inv",
+		Ps: verifFlatParams(pl, nil, &next, nil)})
+	verifT.Unlock()
+	return func(errp *error) {
+		p := recover()
+		verifT.Lock()
+		class, mk := verifClass(*errp)
+		e := VerifEvent{Ev: "invoke.end", C: verifScopeID(s.rootScope()), S: verifScopeID(s), Node: id, Kind: "inv",
+			Err: class, Missing: mk, Panic: p != nil, Snap: verifSnap(s.rootScope())}
+		if *errp != nil {
+			e.Text = (*errp).Error()
+		}
+		verifEmit(e)
+		verifT.Unlock()
+		if p != nil {
+			panic(p)
+		}
+	}
+}
+
+func verifDry(c containerStore) bool {
+	return reflect.ValueOf(c.invoker()).Pointer() != reflect.ValueOf(defaultInvoker).Pointer()
+}
+
+// verifTraceEnter: the user function of node n (nil: the invoked function) is
+// about to run with its arguments built.
+func verifTraceEnter(c containerStore, kind string, n interface{}) {
+	if VerifTracer == nil || verifDry(c) {
+		return
+	}
+	verifT.Lock()
+	defer verifT.Unlock()
+	e := VerifEvent{Ev: "enter", Kind: kind}
+	switch x := n.(type) {
+	case *constructorNode:
+		e.Node, e.S, e.C = verifNodeID(x), verifScopeID(x.origS), verifScopeID(x.s.rootScope())
+	case *decoratorNode:
+		e.Node, e.S, e.C = verifNodeID(x), verifScopeID(x.s), verifScopeID(x.s.rootScope())
+	case *Scope:
+		e.S, e.C = verifScopeID(x), verifScopeID(x.rootScope())
+	}
+	verifEmit(e)
+}
+
+// verifTraceCommit: the results of node n were stored.
+func verifTraceCommit(kind string, n interface{}, rl resultList, results []reflect.Value) {
+	if VerifTracer == nil {
+		return
+	}
+	verifT.Lock()
+	defer verifT.Unlock()
+	e := VerifEvent{Ev: "commit", Kind: kind}
+	switch x := n.(type) {
+	case *constructorNode:
+		e.Node, e.S, e.C = verifNodeID(x), verifScopeID(x.origS), verifScopeID(x.s.rootScope())
+	case *decoratorNode:
+		e.Node, e.S, e.C = verifNodeID(x), verifScopeID(x.s), verifScopeID(x.s.rootScope())
+	}
+	e.FlatLen = verifFlatLens(rl, results)
+	verifEmit(e)
+}
+
+// verifFlatLens returns, per flat result in order, the number of elements of a
+// flattened (or decorated-group) slice and -1 for the others.
+func verifFlatLens(rl resultList, results []reflect.Value) []int {
+	var out []int
+	var walk func(r result, v reflect.Value)
+	walk = func(r result, v reflect.Value) {
+		switch x := r.(type) {
+		case resultObject:
+			for _, f := range x.Fields {
+				walk(f.Result, v.Field(f.FieldIndex))
+			}
+		case resultSingle:
+			out = append(out, -1)
+		case resultGrouped:
+			if v.IsValid() && v.Kind() == reflect.Slice {
+				out = append(out, v.Len())
+			} else {
+				out = append(out, -1)
+			}
+		}
+	}
+	for i, v := range results {
+		if i < len(rl.resultIndexes) && rl.resultIndexes[i] >= 0 {
+			walk(rl.Results[rl.resultIndexes[i]], v)
+		}
+	}
+	return out
+}
